@@ -36,6 +36,41 @@ def classify_exception(e):
     return None
 
 
+CASE_LIMIT_S = int(os.environ.get("VERIF_CASE_LIMIT", "180") or 180)
+
+
+class CaseTimeout(BaseException):
+    """one case did not return within CASE_LIMIT_S (cases normally take milliseconds to a few seconds): treated as
+    non-termination of the code under test.  BaseException so that Hypothesis does not try to shrink a hanging case."""
+
+
+class case_alarm(object):
+    def __enter__(self):
+        import signal
+        self.signal = signal
+        try:
+            self.old = signal.signal(signal.SIGALRM, self._fire)
+            signal.alarm(CASE_LIMIT_S)
+            self.armed = True
+        except ValueError:          # not in the main thread
+            self.armed = False
+        return self
+
+    def _fire(self, signum, frame):
+        raise CaseTimeout()
+
+    def __exit__(self, *a):
+        if self.armed:
+            self.signal.alarm(0)
+            self.signal.signal(self.signal.SIGALRM, self.old)
+        return False
+
+
+def timeout_failure(case):
+    return {"signature": "no-result-within-%ds(non-termination)" % CASE_LIMIT_S, "case": case, "expected": "a result",
+            "actual": "the call did not return within %d s" % CASE_LIMIT_S, "note": "every other case of this facet takes milliseconds to seconds"}
+
+
 class Tally(object):
     def __init__(self, facet, findings):
         self.facet = facet
@@ -70,7 +105,8 @@ class Tally(object):
         """-> None (held / allowed / known / masked) or a failure dict"""
         f = self.facet
         try:
-            r = f.check(case)
+            with case_alarm():
+                r = f.check(case)
             if r == ALLOWED:
                 self.rejected += 1
             return None
@@ -124,7 +160,12 @@ def run_enum(facet, tally, tier, seed, shard, nshards):
         if i % nshards != shard:
             continue
         tally.note_case(case)
-        fail = tally.run_one(case)
+        try:
+            fail = tally.run_one(case)
+        except CaseTimeout:
+            fail = timeout_failure(case)
+            tally.failures.setdefault(fail["signature"], []).append(fail)
+            break
         if fail is not None:
             lst = tally.failures.setdefault(fail["signature"], [])
             lst.append(fail)
@@ -159,6 +200,10 @@ def run_hyp(facet, tally, tier, seed, shard, nshards):
             hypothesis.seed(seed_for(seed, facet.name, shard, rnd_no))(given(strat)(body)))
         try:
             test()
+            break
+        except CaseTimeout:
+            fail = timeout_failure(tally.last_case)
+            tally.failures.setdefault(fail["signature"], []).append(fail)
             break
         except Violation:
             fail = state["fail"]       # Hypothesis replays the minimal example last
@@ -214,6 +259,12 @@ def work(job):
     prop_id, facet_name, tier, seed, shard, nshards = job
     t0 = time.time()
     out = {"job": job, "error": None}
+    try:        # a runaway allocation in the code under test must not take the machine down: MemoryError instead
+        import resource
+        lim = int(os.environ.get("VERIF_MEM_GB", "6")) << 30
+        resource.setrlimit(resource.RLIMIT_AS, (lim, lim))
+    except Exception:
+        pass
     if shard == "fuzz":
         try:
             out.update(run_fuzz(job))
@@ -251,7 +302,10 @@ def replay_file(path):
     facet = find_facet(mod, facet_name)
     case = codec.dec(d["case"])
     tally = Tally(facet, load_findings(prop_id))
-    fail = tally.run_one(case)
+    try:
+        fail = tally.run_one(case)
+    except CaseTimeout:
+        fail = timeout_failure(case)
     return prop_id, facet_name, fail, tally
 
 
@@ -326,7 +380,7 @@ def run_property(prop_id, tier, seed, only=None, jobs=None):
         import multiprocessing as mp
         # safety net only: a budget is a case count, never a time limit.  If the pool does not finish within the guard
         # (a non-terminating loop in the code under test, a dead worker) the run is INCONCLUSIVE: exit 2, never a VIOLATION.
-        guard_s = float(os.environ.get("VERIF_TIMEOUT", "0") or 0) or (1800 if tier == "quick" else 6 * 3600)
+        guard_s = float(os.environ.get("VERIF_TIMEOUT", "0") or 0) or (3600 if tier == "quick" else 8 * 3600)
         pool = mp.get_context("fork").Pool(min(nproc, len(joblist)), maxtasksperchild=1)
         try:
             results = pool.map_async(work, joblist, chunksize=1).get(timeout=guard_s)
